@@ -15,6 +15,7 @@ claimed = {
  "C14": ("gov", "exploration", "5 C14", "seeded source portfolios (denoms, delegations, unbonding/redelegation entries, rewards) x governance involvement at every proposal stage; accepted migrations are judged differentially (portfolio equality, raw-store residue scan, crisis invariants) and followed through maturation after clock jumps; must-refuse cases probed"),
  "C15": ("gov", "exploration", "5 C15", "several concurrent proposals of different message types, deposits, weighted votes, clock advance, custom per-type params changed by proposals; deposit ledger, activation threshold, per-type voting period/quorum, all-or-nothing multi-message execution, tracked donations"),
  "C16": ("gov", "fault_enumeration", "5 C16", "run-time enumeration of every registered message whose signer field is 'authority' x authority class x entry path (signed tx, authz exec, proposal with wrong authority, direct router call), injected into seeded histories; rejected injections must leave all stores byte-identical to a twin world; compare-and-set races for MsgUpdateStore"),
+ "C17": ("c17", "exploration", "5 C17", "block transcripts recorded from runs of every engine are re-executed block by block in independent replicas (fresh processes at GOMAXPROCS 1 and 16/GOGC=1, a go1.26.8 binary, go1.26.8 inside a testing/synctest bubble with a fake wall clock, other node options, crash between FinalizeBlock and Commit with restart over goleveldb); app hash, tx results, events, validator and param updates must agree at every block"),
  "C18": ("c18", "fault_enumeration", "5 C18", "per input the failure is provoked at every distinguishable point with real inputs (callee contracts assembled per mode: actions x endings, disabled token pairs, gas-limit ladder, j-th proposal message invalid/panicking, failing event handlers); fail-late == fail-first on branches of the same state (full store dumps), designated outcome only; plus the same inputs through real transactions"),
  "C19": ("ibc", "exploration", "5 C19", "09-localhost loop-back channels through real IBC core messages; seeded relayer faults (loss, duplication, reordering, forged acks, early timeouts, clock jumps); exact ledger of ERC-20/FX credits and refunds, dump equality on error acks, relation cleanup after honest drain"),
  "C12": ("bridge", "exploration", "5 C12", "honest oracles sign digests from an independent ABI encoder; Byzantine confirmations (wrong key/object/chain id/prefix/truncated/garbage/foreign signer) must be rejected; every stored confirmation is re-verified and must be executable by the contract model"),
@@ -35,6 +36,7 @@ notes = {
  "C14": "expected values for share/reward rounding are read from real keepers on a branch; residue scan is a raw byte search for the source address in staking/distribution/bank stores",
  "C15": "turnout < quorum => not passed is checked one-directionally; deposits to the gov module account by plain bank sends are tracked as donations",
  "C16": "byte-identical is judged against a twin world running the same history without the injected message (allowed differences: signer sequence/pubkey, fee-market block gas, app hash inside staking historical info)",
+ "C17": "the ABCI log/info strings are excluded (non-deterministic by definition); CometBFT itself is not run; four node-option divergences in dependencies are recorded known findings",
  "C18": "IBC boundary (d) is judged by the C19 engine's error-ack dump comparison; at this commit the failing event handlers fail before writing, so boundary (a) mostly guards future changes",
  "C19": "the counter-party chain is the same app (loop-back); genesis is seeded with IBC history (denom traces, escrowed vouchers) because alias vouchers cannot be created otherwise at this commit",
  "C12": "digest equality is checked on the objects that arise in runs (honest confirmation accepted <=> digests agree), not on arbitrary 2^64 values; TRON digests only via the prefix fault",
@@ -64,6 +66,7 @@ m = {
   {"name": "bridge", "path": "fxsim/sim/bridge*.go", "serves_properties": ["C01","C02","C03","C04","C05","C06","C07","C12","C13"], "kind_free_text": "deterministic simulation: real app.App in-process; simulated oracles, external chain model, relayer, users, governance, validator faults, clock"},
   {"name": "evm", "path": "fxsim/sim/evm*.go", "serves_properties": ["C08","C09","C10","C11"], "kind_free_text": "deterministic simulation: generated EVM programs (own assembler) against both precompiles on top of a bridge world; gas-limit and revert fault injection; branch execution through the real EVM keeper"},
   {"name": "gov", "path": "fxsim/sim/gov_*.go", "serves_properties": ["C14","C15","C16"], "kind_free_text": "deterministic simulation: governance / migration histories with seeded actors, clock jumps and authority-injection faults on the real app"},
+  {"name": "c17", "path": "fxsim/sim/c17_*.go", "serves_properties": ["C17"], "kind_free_text": "replica runner: process, runtime, fake-clock, node-option and crash/restart faults over recorded block transcripts of all engines"},
   {"name": "c18", "path": "fxsim/sim/c18_*.go", "serves_properties": ["C18"], "kind_free_text": "deterministic simulation on a bridge world: failure-point enumeration inside tolerated-failure boundaries (inbound bridge call, observed event handler, proposal messages) via generated callee contracts and governance switches, differential execution on branches"},
   {"name": "ibc", "path": "fxsim/sim/ibc_*.go", "serves_properties": ["C19"], "kind_free_text": "deterministic simulation: loop-back IBC channels (09-localhost) on the real app, seeded relayer with loss/duplication/reordering/timeouts"},
  ],
